@@ -15,18 +15,34 @@ VARIABLES tid, l, st, verdict
 Tol == IF "tolerate" \in DOMAIN T THEN {T.tolerate[i] : i \in 1..Len(T.tolerate)} ELSE {}
 Tr == T.traces[tid]
 
-St0 == [run |-> 0, rets |-> {}, tos |-> {}, asks |-> {}, bad |-> "ok"]
+\* rets: waits that have completed;  cnt / first / base: per wait, how often it returned, with which event, and how many
+\* times its invocation had been suspended when it first returned;  susp: suspensions (WaitingForEvent) per invocation.
+\* A step with several wait_for_event calls is executed again from the top each time a later wait is resolved: an earlier,
+\* already completed wait then RETURNS AGAIN the same event -- that replay is not a second completion.  It is allowed
+\* only with the same event and at most once per suspension of the invocation after the wait's first completion.
+St0 == [run |-> 0, rets |-> {}, tos |-> {}, asks |-> {}, bad |-> "ok", cnt |-> <<>>, first |-> <<>>, base |-> <<>>, susp |-> <<>>]
+Get(f, k) == IF k \in DOMAIN f THEN f[k] ELSE 0
+Put(f, k, v) == [x \in (DOMAIN f) \cup {k} |-> IF x = k THEN v ELSE f[x]]
 
 Apply(s, r) ==
   LET s0 == IF r.run # s.run THEN [St0 EXCEPT !.run = r.run, !.asks = s.asks] ELSE s IN     \* asks survive a resume
   CASE r.e = "wait_ret" ->
-         LET key == <<r.step, r.uid, r.wid>> IN
+         LET key == <<r.step, r.uid, r.wid>>
+             n == Get(s0.cnt, key)
+             replay == /\ n >= 1 /\ s0.first[key] = r.got_uid
+                       /\ n <= Get(s0.susp, <<r.step, r.uid>>) - s0.base[key]
+         IN
          [s0 EXCEPT !.rets = @ \cup {key},
-                    !.bad = IF key \in s0.rets THEN "wait_completed_twice"
+                    !.cnt = Put(@, key, n + 1),
+                    !.first = IF n = 0 THEN Put(@, key, r.got_uid) ELSE @,
+                    !.base = IF n = 0 THEN Put(@, key, Get(s0.susp, <<r.step, r.uid>>)) ELSE @,
+                    !.bad = IF key \in s0.rets /\ ~replay THEN "wait_completed_twice"
                             ELSE IF key \in s0.tos THEN "result_after_timeout"
                             ELSE IF r.got_ty # r.want THEN "wrong_type"
                             ELSE IF "k" \in DOMAIN r.reqs /\ r.reqs["k"] # r.got_k THEN "requirement_not_met"
                             ELSE @]
+    [] r.e = "step_end" /\ r.how = "raise:WaitingForEvent" ->
+         [s0 EXCEPT !.susp = Put(@, <<r.step, r.uid>>, Get(@, <<r.step, r.uid>>) + 1)]
     [] r.e = "wait_timeout" ->
          LET key == <<r.step, r.uid, r.wid>> IN
          [s0 EXCEPT !.tos = @ \cup {key},
